@@ -18,6 +18,8 @@ Terms (hashable tuples):
   ('try', T)                                   `T?`
   ('panic', macro) ('unknown', why)
 """
+import re
+
 from .facts import AnalysisGap, callee, callee_generic, ctor_of, pat_bindings, strip
 from . import hq
 from .flow import ADAPTORS, short
@@ -537,6 +539,31 @@ class Eval:
                     t = "<" + (hq.macro_args(e["mac_src"])[1] if len(hq.macro_args(e["mac_src"])) > 1 else "?") + ">"
                 a_ = tuple(self.fmt_args(e, env, depth))
                 w = ("write", anon_names(t, len(a_)) + ("\n" if mac == "writeln" else ""), a_)
+                helpers_ = [self._display_helper(x) for x in a_]
+                if any(h_ is not None for h_ in helpers_) and re.fullmatch(r"(?:[^{}]|\{\})*", w[1]) and w[1].count("{}") == len(a_):
+                    # an argument whose type got its own Display impl after the rules were written: that impl is a helper of this printer and
+                    # its writes happen here, between the literal pieces of the template
+                    args_ = list(zip(a_, helpers_))
+                    for piece in re.split(r"(\{\})", w[1]):
+                        if piece == "":
+                            continue
+                        if piece != "{}":
+                            self.out.append((self.full_conds(), tuple(self.loops), ("write", piece, ())))
+                            continue
+                        x_, h_ = args_.pop(0)
+                        if h_ is None:
+                            self.out.append((self.full_conds(), tuple(self.loops), ("write", "{}", (x_,))))
+                            continue
+                        self._helper_depth += 1
+                        self._helper_stack.append(h_["def_path"])
+                        try:
+                            saved_ret, saved_c, caller_env = self.returns, self.conds, self._cur_env
+                            self.function(h_, [x_, ("param", "f")], depth + 1)
+                            self.returns, self.conds, self._cur_env = saved_ret, saved_c, caller_env
+                        finally:
+                            self._helper_stack.pop()
+                            self._helper_depth -= 1
+                    return w
                 self.out.append((self.full_conds(), tuple(self.loops), w))
                 return w
             if mac in ("unreachable", "panic", "todo", "unimplemented"):
@@ -600,6 +627,8 @@ class Eval:
             fields = tuple(sorted((f["name"], self.expr(f["e"], env, depth)) for f in e["fields"]))
             if "base" in e:
                 fields = fields + (("..", self.expr(e["base"], env, depth)),)
+            if e.get("ty"):
+                self.ctor_types[("ctor", name, fields)] = e["ty"]
             return ("ctor", name, fields)
         if k == "Closure":
             env2 = dict(env)
@@ -748,6 +777,17 @@ class Eval:
         if k == "Repeat":
             return ("repeat", self.expr(e["e"], env, depth))
         return ("unknown", k)
+
+    def _display_helper(self, x):
+        """the Display impl of the type of constructor term x, when that impl did not exist when the rules were written"""
+        ty = self.ctor_types.get(x) if isinstance(x, tuple) and x[:1] == ("ctor",) else None
+        if not ty or self._helper_depth >= 6:
+            return None
+        dp = "<%s as std::fmt::Display>::fmt" % ty
+        bs = self.facts.bodies.get(dp, ())
+        if len(bs) != 1 or dp in known_functions() or dp in self._helper_stack:
+            return None
+        return bs[0]
 
     def fmt_args(self, e, env, depth):
         """Arguments of a format!-like macro in placeholder order.  The expansion is
